@@ -30,17 +30,20 @@ CLAIMED = {
 }
 
 CLAIMED["C14"] = (
-    "interprocedural ownership/effect analysis (conditional write sets, return aliases) to a fix-point over the call graph",
+    "interprocedural ownership/effect analysis (conditional write sets, return aliases) to a fix-point over the call graph; bounded complement "
+    "by abstract evaluation (operand snapshots before / after every battery operation)",
     "Static and path-complete for the structural content of the property: every function with an in-place flag writes to and "
     "returns its operand only under that flag; every other value-returning function has an empty write set on its parameters; "
     "copies get new block/sign tables and assign every slot on every path; index tables shared between copies have no writer; "
     "no in-place array write - augmented assignment, slice store, in-place operator function (operator.iadd ...), out= argument - targets a "
     "shared block; no dict is resized while iterated. Quantifies over all call sites, i.e. "
-    "all programs of public operations, which no finite test sample reaches.",
+    "all programs of public operations, which no finite test sample reaches. BOUNDED CLAIM (R14.8, ~13000 evaluated operations quick): "
+    "every operation of the battery, also on operands without pending signs, leaves the structural snapshot of each operand unchanged, "
+    "returns neither the operand nor an object sharing its block / sign table, and returns the operand itself when asked to work in place.",
     "Assumes backend (numpy/torch/autoray) functions are pure and may return views; trusts the engine's over-approximate call "
     "resolution and the exemption tables printed in the evidence (constructors, commands, modify, __i*__, lazy slot init, memo "
     "slots). Does not decide numerical equality of in-place and out-of-place results beyond 'same statements on a faithful copy'.",
-    "DESIGN.md section 2, C14",
+    "DESIGN.md section 2 (C14) and section 22",
 )
 CLAIMED["C09"] = (
     "typestate (Synced/MaybeLazy) + taint classification of block-value uses, context-sensitive through the FermionicArray MRO; candidates "
@@ -116,18 +119,21 @@ CLAIMED["C08"] = (
     "DESIGN.md sections 2 and 15, C08",
 )
 CLAIMED["C10"] = (
-    "abstract interpretation of conj / dagger / the norm contraction over shaped tokens; sibling agreement (cross-check) of "
+    "abstract interpretation of conj / dagger / the norm contraction / two-tensor network norms over shaped tokens; sibling agreement (cross-check) of "
     "FermionicArray.conj and .dagger by def-use extraction on helper-inlined bodies",
     "Bounded (R10.2-R10.4), for ~130 (quick) / ~1500 (thorough) fermionic token arrays with even and odd parity, labels and pending "
     "signs: conj twice and dagger twice return the original; dagger(phase_dual=p) equals conj(phase_dual=p) followed by the fermionic "
     "reversal for both p; x.conj(phase_dual=p) contracted with x over all axes, in either order and every strategy, is the sum of "
     "tensordot(conj(block), block) over all stored blocks with sign +1 (the squared norm) whenever every index is ket-like or p is "
-    "True. All paths (R10.1): conj and dagger agree on new charge, conjugated labels, odd-global-sign condition, the leg set of the "
+    "True. R10.5: for 120 (quick) two-tensor networks <psi|psi> along six routes (contracted array conjugated, tensor by tensor with the "
+    "bra-like dangling legs sign-flipped, site by site, ket first, both operand orders) is the same signed sum of products and every "
+    "|a b|^2 enters with +1. Confidence only (R10.1, findings become notes): conj and dagger agree on new charge, conjugated labels, odd-global-sign condition, the leg set of the "
     "dual-leg option, and exactly one kind of reversal. Found and fixed the complementary leg set of dagger(phase_dual=True). " + BOUNDED,
-    "Whole networks conjugated tensor by tensor (the property's network clause) are not enumerated; numbers are not computed. Note: "
+    "Networks of three tensors conjugated tensor by tensor are not enumerated (C04 R04.7 covers three-tensor route independence without "
+    "conjugation); numbers are not computed. Note: "
     "the library's docstring also promises the norm for all-bra arrays; odd all-bra arrays give minus the norm, which the property "
     "does not cover and the check does not demand.",
-    "DESIGN.md sections 2 and 16, C10",
+    "DESIGN.md sections 2, 16 and 22, C10",
 )
 CLAIMED["C13"] = (
     "dominating-guard analysis (normalised conditions, early-return guards) for negated-count subscripts; abstract interpretation of "
